@@ -33,7 +33,7 @@ func (l *Lexer) NextToken() token.Token {
 	var tok token.Token
 
 	// l.skipWhitespace()
-	if l.ch == 0 {
+	if l.atEOF() {
 		tok.Literal = ""
 		tok.Type = token.EOF
 		tok.LineNumber = l.curLine
@@ -190,7 +190,7 @@ func (l *Lexer) nextInsideToken() token.Token {
 		tok.Type = token.B_STRING
 		tok.Literal = l.readBString()
 	case '#':
-		for l.ch != 0 {
+		for !l.atEOF() {
 			l.readChar()
 			if l.ch == '\n' || l.ch == '\r' {
 				break
@@ -203,6 +203,12 @@ func (l *Lexer) nextInsideToken() token.Token {
 	case ']':
 		tok = l.newToken(token.RBRACKET)
 	case 0:
+		if !l.atEOF() {
+			// a NUL byte of the input, not its end
+			tok = l.newToken(token.ILLEGAL)
+			break
+		}
+
 		tok.Literal = ""
 		tok.Type = token.EOF
 	default:
@@ -260,6 +266,12 @@ func (l *Lexer) readChar() {
 	l.readPosition++
 }
 
+// atEOF reports whether the whole input has been read. (ch is 0 then, but a 0
+// byte may also be part of the input.)
+func (l *Lexer) atEOF() bool {
+	return l.position >= len(l.input)
+}
+
 func (l *Lexer) peekChar() byte {
 	if l.readPosition >= len(l.input) {
 		return 0
@@ -292,7 +304,7 @@ func (l *Lexer) readNumber() string {
 
 func (l *Lexer) readString() string {
 	position := l.position + 1
-	for l.ch != 0 {
+	for !l.atEOF() {
 		l.readChar()
 		// check for quote escapes
 		for l.ch == '\\' && l.peekChar() == '"' {
@@ -309,7 +321,7 @@ func (l *Lexer) readString() string {
 
 func (l *Lexer) readBString() string {
 	position := l.position + 1
-	for l.ch != 0 {
+	for !l.atEOF() {
 		l.readChar()
 		if l.ch == '`' {
 			break
@@ -322,7 +334,7 @@ func (l *Lexer) readBString() string {
 func (l *Lexer) readHTML() string {
 	var sb strings.Builder
 
-	for l.ch != 0 {
+	for !l.atEOF() {
 		rest := l.input[l.position:]
 
 		if strings.HasPrefix(rest, `\\<%`) {
